@@ -20,6 +20,10 @@ func Check() *core.Check {
 			genref.NoLogicalAssignToLocals = true
 		case "C09-return-iterator-close-throws-state":
 			genref.NoThrowingIteratorClose = true
+		case "C09-return-completed-before-iterators-closed":
+			genref.NoDriveInHelpers = true
+		case "C09-iterator-close-throws-inside-returning-finally":
+			genref.SingleReturnPerInstance = true
 		case "C09-property-key-minus":
 			genref.NoDashChunk = true
 		case "C09-nested-return-completions", "C09-throw-out-of-nested-returning-finally":
